@@ -145,6 +145,18 @@ CLAIMED["C04"] = dict(
          "(variant, classes, order, partitioning) is enumerated up to order 2 (cost of the Python derivation). One genuine defect repaired.",
     note=TB + "Orders above 2 and the spec-level theorem isr_orthonormal of DESIGN are not built.")
 
+CLAIMED["C15"] = dict(
+    category="translation_validation", design="DESIGN.md §4 C15",
+    technique="Lean 4 theorem for the alpha/beta split of a summed spin-orbital index and the relabelling of targets (spinRef_sound) + per-run validation of integrate_spin / transform_to_spatial_orbitals against the Lean-built reference by the proved checker",
+    text="spinRef (Lean model) relabels the target indices with the requested spins and splits every summed spin-orbital index into its "
+         "alpha and beta part; spinRef_sound proves that its value at any assignment of the labelled targets equals the value of the "
+         "spin-orbital expression at the relabelled assignment, for all orbital models and tensor values (adm_split, splitIdx_sound). "
+         "For every (term, target order, target spin) explored the result of integrate_spin must be accepted by checkEquiv as equal to "
+         "that reference after dropping the terms that vanish under the stated spin-conservation hypothesis; expand_eri and restricted "
+         "variants are validated relative to it under the stated relabellings; blocks not reported by allowed_spin_blocks are proved to "
+         "vanish. Four genuine defects repaired (fix: commits). Inputs are sampled.",
+    note=TB + "Model hypotheses (spin-conservation filter for ERI/t-amplitudes/Coulomb, V = v - v, beta->alpha relabelling for restricted) are stated harness-side; no Lean theorem for the restricted clause. Registered intermediates' declared spin blocks are not covered.")
+
 PENDING = {
 }
 
